@@ -32,8 +32,8 @@ def swapcase_component(u, which):
 def bases():
     out = []
     # incl. hosts that are a bare public suffix, that already start with a country-code-like label, and an escaped upper-case query key
-    for host in ("example.com", "blog.example.com", "shop.blog.example.co.uk", "facebook.com", "youtube.com", "télérama.fr", "co.uk", "blogspot.com", "bo.nordland.no"):
-        for tail in ("", "/Some/Path", "/a/b.html?id=1&Q=Abc", "/watch?v=abcdefghijk", "/a?x=1#/Route/1", "/p?%4A=1&b=2"):
+    for host in ("example.com", "blog.example.com", "shop.blog.example.co.uk", "facebook.com", "youtube.com", "télérama.fr", "co.uk", "blogspot.com", "bo.nordland.no", "amp-example.com"):
+        for tail in ("", "/Some/Path", "/a/b.html?id=1&Q=Abc", "/watch?v=abcdefghijk", "/a?x=1#/Route/1", "/p?%4A=1&b=2", "/p?_rdr=1&id=2"):
             out.append((host, tail))
     return out
 
@@ -114,7 +114,7 @@ def shard(job):
                     check_equal(col, "lang-query-item", u, tu, kw, r0)
             # suffix swap
             # (with platform_aware the platform parsers only recognise their own registered domains: facebook.co.uk is not rewritten like facebook.com)
-            if kw.get("strip_suffix") and (host.endswith("example.com") or host == "facebook.com") and not platform_host:
+            if kw.get("strip_suffix") and (host.endswith("example.com") or host == "facebook.com") and not platform_host and not host.startswith("amp-"):
                 stem = host[: -len(".com")]
                 for sfx in SUFFIXES:
                     check_equal(col, "public-suffix", u, "http://%s.%s%s" % (stem, sfx, tail), kw, r0)
